@@ -2,11 +2,12 @@
 
 Part A (enum): Transport._compute_key(letter, n) on an un-started Transport against the reference KDF
 (vmc/refs/rfc4253.kdf, hashlib only) for every kex class's hash, boundary shared secrets, every
-letter and every length 1..512.
+letter and every length 1..512; part A2: the same on ONE Transport across a first exchange and a re-key for
+every ordered pair of kex classes (the kex hash may change between exchanges).
 Part C (enum at the packet seam): every (client->server suite, server->client suite) pair - asymmetric
 negotiations included - keyed through the real _activate_outbound/_activate_inbound of both roles.
 Part B (real handshakes under the scheduler): for every cipher x MAC pair two live Transports
-negotiate keys (and re-key once); a recording Transport subclass logs _set_K_H, _get_engine and the
+negotiate keys (and re-key twice: same kex method, then one with another hash); a recording Transport subclass logs _set_K_H, _get_engine and the
 set_*_cipher arguments.  Installed values == reference derivation for the RFC's letter, client
 outbound == server inbound and vice versa, directions share nothing, and the bytes on the wire
 after NEWKEYS decode and verify under the *reference* keys with the independent decoder.
@@ -21,14 +22,19 @@ PID = "C04"
 META = {
     "level": "exploration",
     "technique": "bounded-exhaustive comparison of Transport._compute_key with an independent RFC 4253 7.2 KDF; "
-                 "real client/server handshakes (initial + one re-key) under the cooperative scheduler for every "
+                 "real client/server handshakes (initial + a re-key with the same kex method + a re-key with a kex method "
+                 "of another hash) under the cooperative scheduler for every "
                  "cipher x MAC pair with recorded installed keys and independent wire decoding; every pair of "
                  "per-direction suites keyed at the packet seam by the real _activate_* of both roles",
     "text": "Part A: K in 9 boundary values (1, 0x7f, 0x80 sign-padding case, 2^255-1, 2^255, 2^1023, 2^2047+1, "
             "2^8191+12345, a 256-bit value), session_id equal to / different from H, letters A-F, every length "
             "1..512, the hash of every kex class paramiko registers (quick: one class per distinct hash) plus the "
-            "sha1 fallback. Part B: all 72 cipher x MAC pairs, kex cycling over sha256/sha384/sha512/sha1 "
-            "families (thorough: every pair with each of the 4), initial exchange and one re-key: the 6 installed "
+            "sha1 fallback. Part A2 - new dimension 'kex hash changes across exchanges': every ordered pair of those kex "
+            "classes (fallback included) on ONE Transport object - first exchange with the first class, then a re-key "
+            "(new K and H, session id kept) with the second; letters A-F, every length 1..512 after each. "
+            "Part B: all 72 cipher x MAC pairs, kex cycling over sha256/sha384/sha512/sha1 "
+            "families (thorough: every pair with each of the 4), initial exchange, one re-key with the same kex method and "
+            "one re-key after the client's kex preference changed to a method with another hash: the 6 installed "
             "values per side equal the reference derivation, match across peers, differ between directions, and "
             "all encrypted packets of both directions verify under reference-derived keys. Part C - new dimension "
             "'asymmetric negotiation' (RFC 4253 7.1 negotiates each direction on its own; two paramiko peers never do): "
@@ -118,6 +124,43 @@ def do_kdf(item, acc):
                     "session_id": "==H and !=H", "example_D_40": t._compute_key("D", 40)})
 
 
+def do_kdf_rekey(item, acc):
+    """Part A2 - dimension 'kex hash changes across exchanges': ONE Transport object derives the keys of a first
+    exchange (kex method A) and then of a re-key (kex method B, new K and H, session id kept) - every ordered pair."""
+    _, (label1, kex1, h1), (label2, kex2, h2) = item
+    t = Transport(P.ByteQueue())
+    sid = core.filler(DIGEST[h1], 21)           # session id = exchange hash of the first exchange
+    epochs = (("initial", kex1, h1, P.K_n(0), sid),
+              ("re-key", kex2, h2, P.K_n(1), core.filler(DIGEST[h2], 22)))
+    bad = False
+    for exchange, kexname, hname, K, H in epochs:
+        t.kex_engine = Transport._kex_info[kexname](t) if kexname else None
+        t.K, t.H, t.session_id = K, H, sid
+        dsz = DIGEST[hname]
+        for letter in LETTERS:
+            want_all = R.kdf(hname, K, H, sid, letter, NMAX)
+            for n in range(1, NMAX + 1):
+                got = t._compute_key(letter, n)
+                acc.ev()
+                if got != want_all[:n]:
+                    bad = True
+                    dims = {"length": "longer-than-digest" if n > dsz else "within-digest", "hash": hname,
+                            "exchange": exchange}
+                    if exchange == "re-key":
+                        dims["rekey-kex-hash"] = "same" if h1 == h2 else "changed"
+                    P.sig_violation(acc, "compute-key-differs-from-rfc", dims,
+                                    {"first_kex": label1, "first_hash": h1, "kex": label2 if exchange == "re-key" else label1,
+                                     "hash": hname, "exchange": exchange, "letter": letter, "n": n,
+                                     "got": got[:32], "want": want_all[:n][:32], "got_len": len(got)},
+                                    {"part": "A2", "first": [label1, kex1, h1], "second": [label2, kex2, h2]})
+    acc.count("kdf_comparisons", 2 * len(LETTERS) * NMAX)
+    if not bad:
+        acc.nt(("kdf-rekey", label1, label2))
+    if (h1, h2) == ("sha256", "sha512") and kex1 and kex2:
+        acc.sample({"part": "A2", "first_exchange": [label1, h1], "re-key": [label2, h2], "letters": LETTERS,
+                    "n": "1..512", "same_transport_object": True})
+
+
 # ------------------------------------------------------------------------------------ part B
 class RecTransport(Transport):
     """Transport that logs what the key schedule produced and installed."""
@@ -145,12 +188,14 @@ def only(kind_all, keep):
     return [x for x in kind_all if x != keep]
 
 
-def handshake(cipher, mac, kex):
-    """Run initial exchange + auth + one re-key + a little traffic; return everything observed (plain data)."""
+def handshake(cipher, mac, kex, kex2):
+    """Run initial exchange + auth + one re-key with the same kex method + one re-key after the client's kex
+    preference changed to kex2 (another hash) + a little traffic; return everything observed (plain data)."""
     def body(s):
         dis = {"ciphers": only(Transport._preferred_ciphers, cipher),
                "macs": only(Transport._preferred_macs, mac),
                "kex": only(Transport._preferred_kex, kex)}
+        dis2 = dict(dis, kex=only(Transport._preferred_kex, kex2))
         p = F.Pair(client_kw={"disabled_algorithms": dis}, tclass=RecTransport)
         p.up()
         p.tc.send_ignore(13)
@@ -161,6 +206,13 @@ def handshake(cipher, mac, kex):
         p.tc.send_ignore(21)
         p.ts.send_ignore(5)
         p.tc.global_request("keepalive@verif", wait=True)
+        s.quiesce()
+        p.tc.disabled_algorithms = dis2          # security preferences changed: the next exchange uses kex2
+        p.tc.renegotiate_keys()
+        s.quiesce()
+        p.tc.send_ignore(9)
+        p.ts.send_ignore(33)
+        p.tc.global_request("keepalive2@verif", wait=True)
         s.quiesce()
         obs = {}
         for side, t, pipe in (("client", p.tc, p.c2s), ("server", p.ts, p.s2c)):
@@ -190,8 +242,12 @@ def expected_letters(role, direction):
     return ("A", "C", "E") if c2s else ("B", "D", "F")
 
 
-def judge_handshake(cipher, mac, kex, obs, acc, replay):
-    hname = KEX_HASH[kex]
+EXCHANGES = ("initial", "re-key", "re-key")       # epoch 2 = re-key with kex2 (different hash)
+
+
+def judge_handshake(cipher, mac, kex, kex2, obs, acc, replay):
+    hnames = (KEX_HASH[kex], KEX_HASH[kex], KEX_HASH[kex2])
+    kexcls = tuple(Transport._kex_info[k].__name__ for k in (kex, kex, kex2))
     kind, bs, klen, ivlen = R.CIPHERS[cipher]
     gcm = kind == "gcm"
     mklen = R.MACS[mac][1]
@@ -200,10 +256,13 @@ def judge_handshake(cipher, mac, kex, obs, acc, replay):
     def bad(clause, dims, detail):
         found.append(clause)
         detail = dict(detail)
-        detail.update({"cipher": cipher, "mac": mac, "kex": kex})
+        detail.update({"cipher": cipher, "mac": mac, "kex": kex, "kex_of_second_re-key": kex2})
         detail.update(dims)
         dims = dict(dims)
-        dims["hash"] = hname
+        epoch = detail.get("epoch", 0)
+        dims["hash"] = hnames[epoch]
+        if epoch:
+            dims["rekey-kex-hash"] = "same" if hnames[epoch] == hnames[epoch - 1] else "changed"
         dims["negotiation"] = "symmetric"
         P.sig_violation(acc, clause, dims, detail, replay)
 
@@ -212,12 +271,15 @@ def judge_handshake(cipher, mac, kex, obs, acc, replay):
         o = obs[role]
         if o["negotiated"][:4] != (cipher, cipher, mac, mac):
             raise AssertionError("harness: negotiated %r instead of %r/%r" % (o["negotiated"], cipher, mac))
-        if len(o["kh"]) != 2 or len(o["engines"]) != 4 or len(o["ciphers"]) != 4 or o["positional_cipher_args"]:
+        if len(o["kh"]) != 3 or len(o["engines"]) != 6 or len(o["ciphers"]) != 6 or o["positional_cipher_args"]:
             raise AssertionError("harness: unexpected log shape %d/%d/%d" % (len(o["kh"]), len(o["engines"]), len(o["ciphers"])))
+        if tuple(n for (_k, _h, n) in o["kh"]) != kexcls:
+            raise AssertionError("harness: exchanges used %r instead of %r" % ([n for (_k, _h, n) in o["kh"]], kexcls))
         sid = o["kh"][0][1]
         if o["session_id"] != sid:
             bad("session-id-is-not-first-exchange-hash", {"role": role}, {})
-        for epoch in (0, 1):
+        for epoch in (0, 1, 2):
+            hname = hnames[epoch]
             K, H, _ = o["kh"][epoch]
             for (d, kw) in o["ciphers"][2 * epoch:2 * epoch + 2]:
                 li, lk, lm = expected_letters(role, d)
@@ -236,12 +298,12 @@ def judge_handshake(cipher, mac, kex, obs, acc, replay):
                     acc.ev()
                     if got != want:
                         bad("installed-value-differs-from-rfc",
-                            {"value": what, "role": role, "direction": d + "bound", "exchange": "initial" if epoch == 0 else "re-key",
+                            {"value": what, "role": role, "direction": d + "bound", "exchange": EXCHANGES[epoch],
                              "cipher-kind": kind, "mac": "-" if gcm else mac},
                             {"epoch": epoch, "letter": {"iv": li, "key": lk, "mac-key": lm}[what],
                              "got": got, "want": want})
                 installed[(role, epoch, d)] = (key, iv_used, mkey)
-    for epoch in (0, 1):
+    for epoch in (0, 1, 2):
         for a, b, name in ((("client", epoch, "out"), ("server", epoch, "in"), "c2s"),
                            (("server", epoch, "out"), ("client", epoch, "in"), "s2c")):
             if a in installed and b in installed:
@@ -274,14 +336,14 @@ def judge_handshake(cipher, mac, kex, obs, acc, replay):
             if inf.problems or inf.message != raw:
                 pr = inf.problems[0] if inf.problems else "payload-differs"
                 bad("wire-does-not-verify-under-rfc-keys", {"stream": direction, "problem": pr,
-                                                           "exchange": "initial" if epoch <= 1 else "re-key"},
-                    {"epoch": epoch, "ptype": pt, "decoded": inf.as_dict()})
+                                                           "exchange": EXCHANGES[max(epoch - 1, 0)]},
+                    {"epoch": max(epoch - 1, 0), "ptype": pt, "decoded": inf.as_dict()})
                 break
             if dec.cipher is not None:
                 n_enc += 1
             if pt == P.MSG_NEWKEYS:
                 K, H, _ = o["kh"][epoch]
-                dec = R.decoder_for(hname, K, H, sid, direction, cipher, mac,
+                dec = R.decoder_for(hnames[epoch], K, H, sid, direction, cipher, mac,
                                     seq=0 if o["strict"] else dec.seq)
                 epoch += 1
         acc.count("wire_packets_verified_under_reference_keys", n_enc)
@@ -410,25 +472,27 @@ def do_asym(item, acc):
 
 
 def do_handshake(item, acc):
-    _, cipher, mac, kex = item
-    replay = {"part": "B", "cipher": cipher, "mac": mac, "kex": kex}
-    ex = handshake(cipher, mac, kex)
+    _, cipher, mac, kex, kex2 = item
+    replay = {"part": "B", "cipher": cipher, "mac": mac, "kex": kex, "kex2": kex2}
+    ex = handshake(cipher, mac, kex, kex2)
     if ex.outcome != "ok":
         raise RuntimeError("handshake harness failed for %r: %s %r" % (item, ex.outcome, ex.error))
-    found = judge_handshake(cipher, mac, kex, ex.value, acc, replay)
+    found = judge_handshake(cipher, mac, kex, kex2, ex.value, acc, replay)
     acc.count("handshakes")
-    acc.count("rekeys")
+    acc.count("rekeys", 2)
+    acc.count("rekeys_with_changed_kex_hash")
     if not found:
-        acc.nt(("handshake", cipher, mac, KEX_HASH[kex]))
+        acc.nt(("handshake", cipher, mac, KEX_HASH[kex], KEX_HASH[kex2]))
     if (cipher, mac) in (("aes128-ctr", "hmac-sha2-256"), ("aes256-gcm@openssh.com", "hmac-sha1")):
         o = ex.value["client"]
-        acc.sample({"part": "B", "cipher": cipher, "mac": mac, "kex": kex, "strict_kex": o["strict"],
+        acc.sample({"part": "B", "cipher": cipher, "mac": mac, "kex": kex, "kex_of_second_re-key": kex2,
+                    "strict_kex": o["strict"],
                     "client_packets_written": len(o["sent"]),
                     "client_out_key_epoch0": o["engines"][0][1], "client_out_key_epoch1": o["engines"][2][1]})
 
 
 def run_item(item, acc):
-    {"kdf": do_kdf, "hs": do_handshake, "asym": do_asym}[item[0]](item, acc)
+    {"kdf": do_kdf, "kdf2": do_kdf_rekey, "hs": do_handshake, "asym": do_asym}[item[0]](item, acc)
 
 
 def items_for(tier):
@@ -436,13 +500,16 @@ def items_for(tier):
     for label, kexname, hname in kex_cases(tier):
         for kv in K_VALUES:
             items.append(("kdf", label, kexname, hname, kv))
+    cases = kex_cases(tier)
+    for a in cases:
+        for b in cases:
+            items.append(("kdf2", a, b))
     pairs = [(c, m) for c in Transport._preferred_ciphers for m in Transport._preferred_macs]
+    nk = len(HANDSHAKE_KEX)
     for i, (c, m) in enumerate(pairs):
-        if tier == "quick":
-            items.append(("hs", c, m, HANDSHAKE_KEX[(i + i // 8) % len(HANDSHAKE_KEX)]))
-        else:
-            for k in HANDSHAKE_KEX:
-                items.append(("hs", c, m, k))
+        # the second re-key moves to one of the 3 other kex methods (all 4 have different hashes), cycling with the pair
+        for ki in ([(i + i // 8) % nk] if tier == "quick" else range(nk)):
+            items.append(("hs", c, m, HANDSHAKE_KEX[ki], HANDSHAKE_KEX[(ki + 1 + i % (nk - 1)) % nk]))
     for i, a in enumerate(PAIRS):
         items.append(("asym", a, (HASHES[(i + i // 8) % len(HASHES)],) if tier == "quick" else HASHES))
     return items
@@ -453,9 +520,11 @@ def main(tier):
         PID, tier, "exploration",
         "part A case = (kex hash, K, session_id==H?, letter, n): _compute_key output == reference KDF prefix; "
         "nontrivial = distinct (hash, K class, session_id==H, letter, number of hash blocks the length needs). "
+        "part A2 case = the same comparison on one Transport after a first exchange and after a re-key; nontrivial = "
+        "distinct ordered (first kex class, re-key kex class) pairs in which all 2 x 6 x 512 comparisons held. "
         "part B case = one compared value (installed IV/key/MAC key vs reference, peer vs peer, direction vs "
         "direction) or one wire packet verified under reference keys; nontrivial = distinct (cipher, MAC, kex hash) "
-        "handshakes (initial + re-key) in which every comparison held. part C case = one compared value or packet of a "
+        "handshakes (initial + re-key + re-key with a kex method of another hash) in which every comparison held. part C case = one compared value or packet of a "
         "seam session; nontrivial = distinct (client->server cipher/MAC, server->client cipher/MAC, kex hash) sessions "
         "in which every comparison held",
         ["K and H are whatever the real exchange produced (C06 judges them); the reference KDF uses hashlib only",
@@ -466,10 +535,12 @@ def main(tier):
     P.regroup(ck, {"length": {"within-digest", "longer-than-digest"}, "session_id": {"equals-H", "differs-from-H"},
                    "hash": {"sha1", "sha256", "sha384", "sha512"}, "K": set(k for k, _ in K_VALUES),
                    "role": {"client", "server"}, "direction": {"inbound", "outbound"}, "stream": {"c2s", "s2c"},
-                   "exchange": {"initial", "re-key"}, "cipher-kind": {"ctr", "cbc", "3des"},
+                   "exchange": {"initial", "re-key"}, "rekey-kex-hash": {"same", "changed"},
+                   "cipher-kind": {"ctr", "cbc", "3des"},
                    "value": {"iv", "key", "mac-key"}, "negotiation": {"symmetric", "asymmetric"},
                    "mac": set(P.MACS)})
     ck.extra["bound"] = {"kex_classes_part_A": len(kex_cases(tier)), "K_values": len(K_VALUES), "n_max": NMAX,
+                         "kex_pairs_part_A2": len(kex_cases(tier)) ** 2, "exchanges_per_handshake": 3,
                          "cipher_mac_pairs": 72, "handshakes": len([i for i in items if i[0] == "hs"]),
                          "seam_sessions_part_C": len(PAIRS) ** 2 * (1 if tier == "quick" else len(HASHES))}
     return ck.finish()
@@ -478,14 +549,17 @@ def main(tier):
 def replay(rec):
     case = rec["replay"]
     acc = core.Acc()
-    if case["part"] == "A":
+    if case["part"] == "A2":
+        do_kdf_rekey(("kdf2", tuple(case["first"]), tuple(case["second"])), acc)
+    elif case["part"] == "A":
         K = dict(K_VALUES)[case["K"]]
         item = ("kdf", case["kex"] or "no-engine-fallback", case["kex"], case["hash"], (case["K"], K))
         do_kdf(item, acc)
     elif case["part"] == "C":
         asym_session(tuple(case["c2s"]), tuple(case["s2c"]), case["hash"], acc)
     else:
-        do_handshake(("hs", case["cipher"], case["mac"], case["kex"]), acc)
+        nxt = HANDSHAKE_KEX[(HANDSHAKE_KEX.index(case["kex"]) + 1) % len(HANDSHAKE_KEX)]
+        do_handshake(("hs", case["cipher"], case["mac"], case["kex"], case.get("kex2") or nxt), acc)
     for v in acc.violations:
         print(v["key"], v["detail"])
     print("violations:", len(acc.violations))
